@@ -71,7 +71,7 @@ def run(ctx):
              "find all (at least 1 (not ' ')) = w", "find all (at least 2 any) = v maybe ' '", "replace all (at least 1 (not in ' ', 'a')) = w with w '|' w",
              "find all at least 1 ((at least 1 (not ' ')) = w maybe ' ') named ws", "find all (at least 1 any) = all"]
     cases, meta = [], []
-    for i in range(60 if quick else 800):
+    for i in range(60 if quick else 6000):
         p = rng.choice(progs)
         if rng.random() < 0.3:
             g = genprog.ProgGen(rng)
